@@ -43,13 +43,26 @@ def scenarios(tier):
     for f in (0, 1):
         out.append(("writer.loop", 1, f, 2, "poller.send", 1, 1500))
         out.append(("writer.loop", 0, f, 0, "poller.wait", 0, 1500))
+    # a chronyd that answers, but slowly (150 ms per reply), while the writer dies: whatever the poller does
+    # about slow replies must not keep it from its report and its mailbox
+    for point in ("writer.loop", "writer.ready"):
+        for f in (0, 1):
+            out.append((point, 0, f, 3))
+    out.append(("writer.loop", 1, 0, 3))
+    out.append(("poller.send", 2, 0, 3))
+    # a backlog: the writer does not look at its mailbox for 18.5 s while the poller (chronyd absent) sends
+    # a report every second, then the poller dies: the abort is the last of more than sixteen queued messages
+    out.append(("poller.wait", 17, 0, 0, "writer.loop", 1, 18500))
+    if tier != "quick":
+        out.append(("poller.loop", 17, 1, 0, "writer.loop", 1, 18500))
+        out.append(("poller.wait", 40, 0, 0, "writer.loop", 1, 42000))
     return out
 
 
 def run_one(binary, sc):
     line = "thr " + " ".join(str(x) for x in sc)
     try:
-        out = c.run_lines_in_namespace(binary, [line], timeout=60)[0]
+        out = c.run_lines_in_namespace(binary, [line], timeout=150)[0]
     except c.CheckError as e:
         return line, None, str(e)
     return line, dict(x.split("=") for x in out.split()), out
@@ -62,7 +75,7 @@ def run(res, proofs_ok, proofs_why, only=None):
         results = list(ex.map(lambda sc: run_one(binary, sc), scs))
     res.rule = ("one real run of thread_manager::run per (fault point, iteration at which it strikes, panic | early return) + a real start-up failure of the writer; "
                 "non-trivial = every scenario (each kills a different worker at a different program point)")
-    bad, worst = [], 0
+    bad, worst, unreached = [], 0, []
     for sc, (line, r, raw) in zip(scs, results):
         res.evaluations += 1
         res.nontriv(line)
@@ -70,13 +83,19 @@ def run(res, proofs_ok, proofs_why, only=None):
         if r is None:
             raise c.CheckError("scenario %s could not be run: %s" % (line, raw[-500:]))
         if r["fired"] != "1":
-            raise c.CheckError("fault point %s was never reached (hook missing?): %s" % (line, raw))
+            # no worker died in this run (the point was not reached): the scenario says nothing about C15
+            res.count("scenario-without-a-death")
+            unreached.append(line)
+            continue
         ms = int(r["ms_after_death"])
         worst = max(worst, ms)
         if r["returned"] != "1":
             bad.append({"scenario": line, "impl": raw, "why": ["run() had not returned %d ms after the worker died: the daemon lingers with part of its pipeline" % 20000]})
         elif ms > DEADLINE_MS:
             bad.append({"scenario": line, "impl": raw, "why": ["run() returned only %d ms after the worker died" % ms]})
+    if len(unreached) > len(scs) // 10:
+        raise c.CheckError("in %d of %d scenarios no worker died (hooks missing?): %s" % (len(unreached), len(scs), unreached[:3]))
+    res.extra["scenarios_without_a_death"] = unreached
     res.extra["worst_ms_after_death"] = worst
     res.extra["deadline_ms"] = DEADLINE_MS
     res.samples = [{"scenario": l, "impl": raw} for (l, r, raw) in results[:6]]
